@@ -115,6 +115,7 @@ def check_obligation(col, ctx, name, goal, inputs, replay, known=None, descr=Non
     """
     known = known or {}
     col.d["obligations"] += 1
+    goal = _simplify_goal(ctx, goal)
     neg = [z3.Not(goal)] + list(extra_assume)
     outside = neg + [z3.Not(p) for p in known.values()]
     r, m = ctx.solve(outside, kind="goal", timeout_ms=timeout_ms, groups=groups_first)
@@ -147,14 +148,43 @@ def check_obligation(col, ctx, name, goal, inputs, replay, known=None, descr=Non
     return False
 
 
+def _simplify_goal(ctx, goal):
+    from . import polyred
+    if not polyred.active(ctx):
+        return goal
+    try:
+        g = polyred.rewrite(ctx, goal)
+        return z3.simplify(g) if z3.is_bool(g) else goal
+    except polyred.NotPolynomial:
+        return goal
+
+
 def check_obligations(col, ctx, goals, inputs, replay, known=None, descr=None, timeout_ms=None,
-                      groups_first=None):
+                      groups_first=None, hyps=None):
     """goals: dict name -> z3 Bool.  One query for the conjunction first; only if
-    that is not unsat are the clauses decided one by one."""
+    that is not unsat are the clauses decided one by one.  hyps: formulas already
+    established on this path (proved obligations, spec definitions) that may be used."""
+    if hyps:
+        saved = list(ctx.assumptions)
+        ctx.assumptions = saved + list(hyps)
+        try:
+            return check_obligations(col, ctx, goals, inputs, replay, known, descr, timeout_ms, groups_first)
+        finally:
+            ctx.assumptions = saved
     goals = {k: v for k, v in goals.items()}
     if not goals:
         return True
     known = known or {}
+    goals = {k: _simplify_goal(ctx, v) for k, v in goals.items()}
+    if all(z3.is_true(v) for v in goals.values()) and not known:
+        # every clause reduced to True by certified rewriting: one trivial solver query for the record
+        r, _ = ctx.solve([z3.Not(z3.And(list(goals.values())))], kind="goal")
+        if r == "unsat":
+            col.d["obligations"] += len(goals)
+            col.d["discharged"] += len(goals)
+            col.sample(dict(obligations=sorted(goals), verdict="unsat (clauses reduce to true by solver-certified "
+                                                               "rewriting modulo the unit-quaternion hypotheses)", descr=descr))
+            return True
     if len(goals) > 1:
         conj = z3.And(list(goals.values()))
         outside = [z3.Not(conj)] + [z3.Not(p) for p in known.values()]
@@ -178,6 +208,31 @@ def check_obligations(col, ctx, goals, inputs, replay, known=None, descr=None, t
     for name, g in goals.items():
         ok = check_obligation(col, ctx, name, g, inputs, replay, known, descr, timeout_ms, groups_first) and ok
     return ok
+
+
+def check_lemma(col, ctx, name, hyps, goal, descr=None, timeout_ms=60000):
+    """Lemma chaining (DESIGN 2.5 item 6): decide `hyps => goal` over fresh variables,
+    *without* the path's assumptions (fewer hypotheses: sound).  The caller instantiates the
+    universally valid lemma at terms for which it has already discharged the hypotheses.
+    A sat answer only means the chain is insufficient: inconclusive, never a violation."""
+    import time
+    col.d["obligations"] += 1
+    s = z3.Solver()
+    s.set("timeout", timeout_ms)
+    fs = list(hyps) + [z3.Not(goal)]
+    for h in sc.QUERY_HOOKS:
+        fs = fs + h(fs)
+    for f in fs:
+        s.add(f)
+    t0 = time.time()
+    r = str(s.check())
+    ctx.stats.add("lemma", time.time() - t0)
+    if r == "unsat":
+        col.d["discharged"] += 1
+        col.sample(dict(obligation=name, verdict="unsat (chained lemma)", descr=descr))
+        return True
+    col.d["inconclusive"].append(dict(ob=name, why="chained lemma not discharged (%s)" % r, descr=descr))
+    return False
 
 
 def _replay_model(col, ctx, name, m, inputs, replay, query, descr, key):
